@@ -29,7 +29,7 @@ def main() -> int:
         import traceback
         from pathlib import Path
         tb = traceback.format_exc()
-        d = Path("/verif/replays")
+        d = Path(os.environ.get("VERIF_ROOT") or "/verif") / "replays"
         d.mkdir(exist_ok=True)
         path = d / f"{a.pid}_{a.tier}_harness_crash.json"
         path.write_text(json.dumps(dict(property=a.pid, broken="harness crashed while driving the implementation",
